@@ -2,8 +2,12 @@ package scn
 
 import (
 	"context"
+	"io"
 	"sort"
 	"time"
+
+	ubackoff "github.com/aperturerobotics/util/backoff"
+	"github.com/sirupsen/logrus"
 
 	"github.com/aperturerobotics/util/keyed"
 	"github.com/aperturerobotics/util/zzverif/vsched"
@@ -131,8 +135,17 @@ func init() {
 			if vsched.Choose(2) == 1 {
 				vsched.Settle() // the first instances are inside their functions when the word starts
 			}
+			nletters := 6
+			if length <= 2 && !withB {
+				nletters = 8
+			}
 			for i := 0; i < length; i++ {
-				switch vsched.Choose(6) {
+				switch vsched.Choose(nletters) {
+				case 6:
+					k.ResetAllRoutines()
+				case 7:
+					// condition functions: only a true condition resets
+					k.ResetRoutine("a", func(string, int) bool { return false }, func(string, int) bool { return true })
 				case 0:
 					k.RestartRoutine("a")
 				case 1:
@@ -170,7 +183,7 @@ func init() {
 	})
 	eng.Register(&eng.Scenario{
 		Name: "keyed-restart-word2", Props: []string{"C07"}, ObsNames: stdObs,
-		Doc:   "Keyed: as keyed-restart-word3 with words of length 2 and a deeper schedule bound",
+		Doc:   "Keyed: as keyed-restart-word3 with words of length 2 over the alphabet extended by ResetAllRoutines and ResetRoutine(a, conds...), and a deeper schedule bound",
 		Quick: eng.Bounds{PB: 2, Delay: true}, Thorough: eng.Bounds{PB: 4, Delay: true},
 		Body: restartWord(2, false),
 	})
@@ -271,6 +284,78 @@ func init() {
 			vsched.Settle()
 			if vsched.Ctr(kActiveA) != 0 {
 				fail("C07.not-cancelled", "an instance of key a is still executing at quiescence after RemoveKey")
+			}
+		},
+	})
+
+	eng.Register(&eng.Scenario{
+		Name: "keyed-withretry", Props: []string{"C07"}, ObsNames: stdObs,
+		Doc:   "Keyed / KeyedRefCount built through the other option spellings (choice): WithRetry(constant back-off config), WithRetry(config) followed by WithRetry(nil) (retry disabled again), the WithLogger constructors with WithExitLogger: key a fails on its first run; with retry configured it runs again by quiescence, without it nothing runs it again; RemoveKey / reference release cancels it and nothing starts afterwards",
+		Quick: eng.Bounds{PB: 2}, Thorough: eng.Bounds{PB: 3},
+		Body: func() {
+			how := vsched.Choose(4)
+			le := logrus.NewEntry(logrus.New())
+			le.Logger.SetOutput(io.Discard)
+			conf := &ubackoff.Backoff{BackoffKind: ubackoff.BackoffKind_BackoffKind_CONSTANT, Constant: &ubackoff.Constant{Interval: 1000}}
+			ctor := func(key string) (keyed.Routine, int) {
+				n := int(vsched.CtrAdd(kCtors, 1))
+				return func(ctx context.Context) error {
+					out := iUntilCancelled
+					if vsched.Ctr(kRunsA) == 0 {
+						out = iReturnErr
+					}
+					return keyedInstance(ctx, key, out)
+				}, n
+			}
+			retry := how != 1
+			var setKey func()
+			var remove func()
+			var present func() bool
+			switch how {
+			case 0, 1:
+				opts := []keyed.Option[string, int]{keyed.WithRetry[string, int](conf)}
+				if how == 1 {
+					opts = append(opts, keyed.WithRetry[string, int](nil))
+				}
+				k := keyed.NewKeyed(ctor, opts...)
+				k.SetContext(bg, false)
+				setKey = func() { k.SetKey("a", true) }
+				remove = func() { k.RemoveKey("a") }
+				present = func() bool { _, ok := k.GetKey("a"); return ok }
+			case 2:
+				k := keyed.NewKeyedWithLogger(ctor, le, keyed.WithRetry[string, int](conf))
+				k.SetContext(bg, false)
+				setKey = func() { k.SetKey("a", true) }
+				remove = func() { k.RemoveKey("a") }
+				present = func() bool { _, ok := k.GetKey("a"); return ok }
+			case 3:
+				k := keyed.NewKeyedRefCountWithLogger(ctor, le, keyed.WithRetry[string, int](conf), keyed.WithExitLogger[string, int](le))
+				k.SetContext(bg, false)
+				var ref *keyed.KeyedRef[string, int]
+				setKey = func() { ref, _, _ = k.AddKeyRef("a") }
+				remove = func() { ref.Release() }
+				present = func() bool { _, ok := k.GetKey("a"); return ok }
+			}
+			setKey()
+			vsched.Settle() // auto timers: the retry (if any) has happened
+			runs := vsched.Ctr(kRunsA)
+			if retry && (runs < 2 || vsched.Ctr(kActiveA) != 1) {
+				fail("C07.retry-lost", "key a failed once with retry configured (variant %d) but ran %d time(s) and %d instance(s) are executing at quiescence", how, runs, vsched.Ctr(kActiveA))
+			}
+			if !retry && runs != 1 {
+				fail("C07.started-after-removal", "retry was disabled by WithRetry(nil) but key a ran %d times", runs)
+			}
+			if !present() {
+				fail("C07.not-removed", "key a vanished although it was never removed")
+			}
+			remove()
+			vsched.CtrSet(kRemovedA, 1)
+			if l := liveKeyed(0); l != 0 {
+				fail("C07.not-cancelled", "key a removed but %d instance(s) still have a live context when the call returns", l)
+			}
+			vsched.Settle()
+			if vsched.Ctr(kActiveA) != 0 || present() {
+				fail("C07.not-cancelled", "key a still present or executing at quiescence after its removal")
 			}
 		},
 	})
